@@ -126,8 +126,9 @@ Definition header_unmarshal_into (prev : header) (buf : list Z) : res hdr_result
         | _ => Err EShort                              (* len(buf) < n + 4 *)
         end
       else
-        (* h.Extensions = h.Extensions[:0]; ExtensionProfile keeps its previous value *)
-        Ok (mkHdrResult (mk (extension_profile prev) []) n [] lc)
+        (* h.Extensions = h.Extensions[:0]; h.ExtensionProfile = 0 (repair D26: it used to keep the
+           previous receiver's value) *)
+        Ok (mkHdrResult (mk 0 []) n [] lc)
     | _ => Panic   (* unreachable: len(buf) >= 12 was checked *)
     end
   | _ => Err EShort                                    (* len(buf) < headerLength *)
